@@ -9,7 +9,7 @@
    layer object ("for every layer class"). *)
 EXTENDS Mirror, Sequences, TLC, Json
 CONSTANT Part
-Sources == {"reply", "mutated", "random", "ones", "zeros", "typeup", "typedown", "type0", "unreach"}      \* type*: own image, leading type octet of the innermost layer +1 / -1 / 0
+Sources == {"reply", "mutated", "random", "ones", "zeros", "typeup", "typedown", "type0", "unreach", "tagged"}      \* type*: own image, leading type octet of the innermost layer +1 / -1 / 0
 SafeCases == {[src |-> s, n |-> n] : s \in Sources, n \in 0..128}
 VARIABLE c
 Init == c \in (IF Part = "match" THEN Cases ELSE SafeCases)
